@@ -233,7 +233,13 @@ pub fn corner_radii(d: &mut Dec, max: u32) -> CornerRadii {
 /// Angle in degrees, `-720..=720`, integer or with a fractional part.
 pub fn angle_deg(d: &mut Dec) -> f32 {
     match d.u(0, 3) {
-        0 => d.pick(&[0, 90, 180, 270, 360, -90, -180, -270, -360, 45, 720, -720]) as f32,
+        // (entry 2k is the k-th of the original twelve integers, so a tape word that selected one of them still
+        // does in half of its range; the odd entries are angles a hair away from a quadrant boundary, from zero
+        // and from a full turn: float rounding in `normalize`, comparisons with exact multiples of 90)
+        0 => d.pick(&[
+            0.0f32, -1e-5, 90.0, 1e-5, 180.0, -1e-7, 270.0, 89.99999, 360.0, 90.00001, -90.0, 359.99997, -180.0, -359.99997, -270.0, 180.00002, -360.0, -1.0e-38, 45.0, 719.9999, 720.0,
+            -0.001, -720.0, 0.001,
+        ]),
         1 | 2 => d.i(-720, 720) as f32,
         _ => d.i(-72000, 72000) as f32 / 100.0,
     }
@@ -846,4 +852,40 @@ where
         }
     }
     Ok(())
+}
+
+
+/// An iterator over `v` with one of the `size_hint` shapes that well-behaved (fused, finite) iterators
+/// have: exact (route 0), `(0, Some(n))` (what `filter` reports, 1), `(0, None)` (`from_fn`, 2), an upper bound
+/// far above the real length (`take_while` over a longer chain, 3), a lower bound only (4). The items are
+/// the same in every case; no allocation (C08 runs it with the allocation counter armed).
+pub struct StreamRoute<'a, T> {
+    v: &'a [T],
+    i: usize,
+    route: u32,
+}
+
+pub fn stream_route<T: Copy>(v: &[T], route: u32) -> StreamRoute<'_, T> {
+    StreamRoute { v, i: 0, route: route % 5 }
+}
+
+impl<T: Copy> Iterator for StreamRoute<'_, T> {
+    type Item = T;
+    fn next(&mut self) -> Option<T> {
+        let r = self.v.get(self.i).copied();
+        if r.is_some() {
+            self.i += 1;
+        }
+        r
+    }
+    fn size_hint(&self) -> (usize, Option<usize>) {
+        let n = self.v.len() - self.i;
+        match self.route {
+            0 => (n, Some(n)),
+            1 => (0, Some(n)),
+            2 => (0, None),
+            3 => (0, Some(n + 1000)),
+            _ => (n, None),
+        }
+    }
 }
